@@ -53,17 +53,39 @@ class FakeSecrets:
         return min(seq)
 
 
+class _Sqlite3Shim:
+    """Stands in for the `sqlite3` module inside tupimage.id_manager: `connect` attaches the calling
+    simulated process's trace callback at once, so that the statements of `IDManager.__init__` (PRAGMAs and
+    schema DDL) are switch points too; everything else is the real module."""
+
+    def __init__(self, real):
+        self._real = real
+
+    def connect(self, *a, **kw):
+        conn = self._real.connect(*a, **kw)
+        proc = getattr(CUR, "proc", None)
+        if proc is not None:
+            proc.conn = conn
+            conn.set_trace_callback(proc._trace)
+        return conn
+
+    def __getattr__(self, name):
+        return getattr(self._real, name)
+
+
 def install_fakes():
     from tupimage import id_manager as im
-    saved = (im.datetime, im.secrets)
+    saved = (im.datetime, im.secrets, im.sqlite3)
     im.datetime = FakeDateTime
     im.secrets = FakeSecrets
+    if not isinstance(im.sqlite3, _Sqlite3Shim):
+        im.sqlite3 = _Sqlite3Shim(im.sqlite3)
     return saved
 
 
 def uninstall_fakes(saved):
     from tupimage import id_manager as im
-    im.datetime, im.secrets = saved
+    im.datetime, im.secrets, im.sqlite3 = saved
 
 
 class Proc(threading.Thread):
@@ -82,6 +104,7 @@ class Proc(threading.Thread):
         self.parked_at = None
         self.hook = hook
         self.m = None
+        self.conn = None
         self.locked = False
         self.seed = seed
         self.nprocs = nprocs
@@ -89,7 +112,7 @@ class Proc(threading.Thread):
     # -- called in this thread from sqlite's trace callback
     def _trace(self, sql):
         self.statements.append((self.cur_op, sql))
-        conn = self.m.conn
+        conn = self.conn if self.m is None else self.m.conn
         # `locked`: this connection holds sqlite's write lock (BEGIN IMMEDIATE/EXCLUSIVE, or a deferred
         # transaction that has already written).  While it does, nobody else can write, so parking here
         # would only make the others wait for busy_timeout; everywhere else is a switch point — including
@@ -116,7 +139,15 @@ class Proc(threading.Thread):
             from tupimage import id_manager as im
             set_current(self.seed, self.nprocs, self.idx, -1)
             self.park(("open",))
-            self.m = im.IDManager(self.dbfile, max_ids_per_subspace=self.max_ids)
+            CUR.proc = self if self.sched.trace_open else None
+            try:
+                self.m = im.IDManager(self.dbfile, max_ids_per_subspace=self.max_ids)
+            except Exception as e:  # noqa: the open itself failed: every operation of this process fails with it
+                CUR.proc = None
+                for op in self.ops:
+                    self.results.append((op, ("exc", type(e).__name__, "open: " + str(e)[:180])))
+                return
+            CUR.proc = None
             self.m.conn.set_trace_callback(self._trace)
             for i, op in enumerate(self.ops):
                 self.cur_op = i
@@ -140,7 +171,8 @@ class Scheduler:
     """Runs `programs` (list of op lists) under `schedule` (iterable of process indices; when it
     runs out, or names a finished process, the lowest unfinished process moves)."""
 
-    def __init__(self, dbfile, programs, apply, max_ids=1024, seed=0):
+    def __init__(self, dbfile, programs, apply, max_ids=1024, seed=0, trace_open=False):
+        self.trace_open = trace_open
         self.parked = threading.Semaphore(0)
         self.apply = apply
         self.procs = [Proc(i, self, dbfile, ops, max_ids, seed=seed, nprocs=len(programs)) for i, ops in enumerate(programs)]
